@@ -382,6 +382,147 @@ def root_setter_cases(ctx):
                 ctx.fail("the trees differ after a refused root assignment", case, classify)
 
 
+XMLNS = "http://www.w3.org/2000/xmlns/"
+REQ_SET = T.REQ.replace("CTree COps CEncode", "CTree COps CEncode Setters")
+
+
+def reserved_attribute(w):
+    def go(e):
+        i, k, dns, data, kids = e
+        if k[0] == "tag" and any(a[0] == XMLNS or a[1] == "xmlns" for a in k[3]):
+            return True
+        return any(go(c) for c, _ in kids)
+    return any(go(r) for _, r, _ in w["docs"]) or any(go(l[1]) for l in w["loose"] if l[0] == "el")
+
+
+def setter_cases(ctx):
+    """comment content, PI target, PI content, attribute creation and renaming through every route: refused exactly when
+    the generated validator (evaluated in Coq through csetter) refuses, with ValueError, and then the complete internal
+    state of all trees is as before"""
+    xml = '<!--pro--><?pp a?><r xmlns="d" k="v"><!--c--><?p q?><x k="v" a="1">t</x></r><?e f?>'
+    pi_contents = [" x", "\tx", "\nx", "\rx", "x ", "", "x", "  ", "x\n y"]
+    names = [("", "xmlns"), (XMLNS, "a"), (XMLNS, "xmlns"), ("", "xmlnsx"), ("", "a"), ("u", "xmlns"), ("u", "b"), ("d", "k")]
+    cases = []      # (label, setter term maker, python call)
+
+    def fresh():
+        real = Real()
+        real.docs.append(Document(xml))
+        loose_pi = impl.new_processing_instruction_node("lp", "v")
+        loose_c = impl.new_comment_node("lc")
+        real.dump_world()
+        real.nid(loose_pi)
+        real.nid(loose_c)
+        w = real.dump_world()
+        live = c01.live_nodes(w)
+        byk = {}
+        for i, v in sorted(live.items()):
+            byk.setdefault((v[0], v[1]), []).append(i)
+        return real, w, byk, loose_pi, loose_c
+
+    def run_one(label, term_of, call_of, expect_kind):
+        real, w, byk, lpi, lc = fresh()
+        before = w
+        term, target = term_of(byk)
+        try:
+            held = call_of(real, byk)
+            exc = None
+        except Exception as e:  # noqa: BLE001
+            exc, held = type(e).__name__, None
+        after = real.dump_world()
+        cases.append({"label": label, "term": "csetter_enc %s %s" % (T.gworld(before), term), "exc": exc, "before": before,
+                      "after": after, "held": held})
+
+    def obj(real, byk, key, j=0):
+        return real.objs[byk[key][j]]
+    # PI content: attached, next to the root, parentless; and the constructor
+    for s_ in pi_contents:
+        for key, lab in ((("pi", True), "attached"), (("pi", "docsib"), "document-level"), (("pi", False), "parentless")):
+            run_one("pi.content (%s) = %r" % (lab, s_),
+                    lambda byk, key=key, s_=s_: ("(SetPIContent %d %s)" % (byk[key][0], T.gstr(s_)), byk[key][0]),
+                    lambda real, byk, key=key, s_=s_: setattr(obj(real, byk, key), "content", s_), "pi")
+        run_one("new_processing_instruction_node('t', %r)" % s_,
+                lambda byk, s_=s_: ("(SetPIContent %d %s)" % (byk[("pi", False)][0], T.gstr(s_)), None),
+                lambda real, byk, s_=s_: impl.new_processing_instruction_node("t", s_), "pi-new")
+    # comment content and PI target through the model as well
+    for s_ in ["a--b", "a-", "ok", "-x"]:
+        run_one("comment.content = %r" % s_,
+                lambda byk, s_=s_: ("(SetCommentContent %d %s)" % (byk[("comment", True)][0], T.gstr(s_)), None),
+                lambda real, byk, s_=s_: setattr(obj(real, byk, ("comment", True)), "content", s_), "comment")
+    for s_ in ["xml", "XmL", "", "ok"]:
+        run_one("pi.target = %r" % s_,
+                lambda byk, s_=s_: ("(SetPITarget %d %s)" % (byk[("pi", True)][0], T.gstr(s_)), None),
+                lambda real, byk, s_=s_: setattr(obj(real, byk, ("pi", True)), "target", s_), "target")
+    # attributes: every route that creates or renames one
+    def xnode(real, byk):
+        return next(real.objs[i] for i in byk[("tag", True)] if real.objs[i].local_name == "x")
+
+    routes = {
+        "attributes[(ns, name)] = v": lambda n, ns, nm: n.attributes.__setitem__((ns, nm), "1"),
+        "attributes['{ns}name'] = v": lambda n, ns, nm: n.attributes.__setitem__(("{%s}%s" % (ns, nm)) if ns else nm, "1"),
+        "node[(ns, name)] = v": lambda n, ns, nm: n.__setitem__((ns, nm), "1"),
+        "attributes.update": lambda n, ns, nm: n.attributes.update({(ns, nm): "1"}),
+        "attributes.setdefault": lambda n, ns, nm: n.attributes.setdefault((ns, nm), "1"),
+        "new_tag_node(attributes=)": lambda n, ns, nm: impl.new_tag_node("n", attributes={(ns, nm): "1"}),
+        "append tag() definition": lambda n, ns, nm: n.append_children(impl.tag("n", {(("{%s}%s" % (ns, nm)) if ns else nm): "1"})),
+        "Attribute.local_name / namespace": None,
+    }
+    # direct tuples whose local name holds Clark notation, and a reserved name in the default namespace
+    names = names + [("d", "xmlns"), ("", "{u}xmlns"), ("", "{%s}a" % XMLNS), ("", "{u}b")]
+    for ns, nm in names:
+        for route, fn in routes.items():
+            if nm.startswith("{") and route not in ("attributes[(ns, name)] = v", "node[(ns, name)] = v", "attributes.update",
+                                                      "attributes.setdefault", "new_tag_node(attributes=)"):
+                continue
+            def call(real, byk, ns=ns, nm=nm, fn=fn, route=route):
+                n = xnode(real, byk)
+                if fn is not None:
+                    fn(n, ns, nm)
+                    return None
+                a = n.attributes["a"]            # renaming an attached Attribute
+                if a.local_name != nm:
+                    a.local_name = nm
+                if (a.namespace or "") != ns:
+                    a.namespace = ns
+                return None
+
+            def term(byk, ns=ns, nm=nm, route=route):
+                if route == "append tag() definition" and ns:
+                    # tag() keeps a Clark-notation string key as the *name* ('', '{ns}name'): that is what is validated
+                    return ("(SetAttribute %d %s %s %s)" % (byk[("tag", True)][-1], T.gstr(""), T.gstr("{%s}%s" % (ns, nm)), T.gstr("1")), None)
+                return ("(SetAttribute %d %s %s %s)" % (byk[("tag", True)][-1], T.gstr(ns), T.gstr(nm), T.gstr("1")), None)
+            run_one("%s with (%r, %r)" % (route, ns, nm), term, call, "attr")
+    vals = ctx.coq_eval("c09s", REQ_SET, [c["term"] for c in cases], chunk=max(8, len(cases) // 16 + 1))
+    for c, v in zip(cases, vals):
+        ctx.count(1, "setter")
+        ctx.nontrivial_case(("setter", c["label"]))
+        case = {"category": "setter", "call": c["label"], "exception": c["exc"]}
+        if v is None:
+            ctx.mismatch("csetter evaluation", "coqc failed")
+            return
+        d = T.Dec(v)
+        res = d.framed().result()
+        mw = T.norm_cworld(d.framed().cworld())
+        refused = res[0] == "rejected"
+        if refused and c["exc"] is None:
+            # the validator of the source refuses this value, but this route did not raise
+            ctx.fail("a value the validator refuses was accepted without ValueError", dict(case, after=c["after"]), classify)
+            continue
+        if refused != (c["exc"] == "ValueError"):
+            ctx.mismatch("csetter (generated validators) vs implementation", {"case": case, "model": res})
+            continue
+        if c["exc"] not in (None, "ValueError"):
+            ctx.fail("a setter fails with %s" % c["exc"], case, classify)
+            continue
+        if not refused and reserved_attribute(c["after"]):
+            ctx.fail("an attribute named xmlns / in the xmlns namespace was created without ValueError",
+                     dict(case, after=c["after"]), classify)
+        if refused:
+            if c["after"] != c["before"]:
+                ctx.fail("the trees differ after a refused assignment", dict(case, before=c["before"], after=c["after"]), classify)
+            if mw != c["before"]:
+                ctx.mismatch("csetter changed the world on a refusal", {"case": case})
+
+
 def fixed_cases(ctx):
     """the witnesses of repaired findings must not fail again"""
     for f in common.load_findings():
@@ -406,6 +547,7 @@ def run(ctx, args):
         validator_cases(ctx, 150 if quick else 3000)
         chain_cases(ctx)
         root_setter_cases(ctx)
+        setter_cases(ctx)
         fixed_cases(ctx)
     return ctx.finish(
         rule="states: 1-2 parsed documents (as in C01) + a pool of parentless nodes, 0-10 legal edits; then illegal "
